@@ -13,6 +13,8 @@
 //	  if str, exists := NTStatusToGoErrorMap[s]; exists { return fmt.Errorf(FORMAT, uint32(s), str) }
 //	  return nil
 //	}
+//	  — or any arrangement of these tests with the same truth table, and the code rendered by an
+//	  expression or helper that means a %x / %0Nx / %X / %d verb: see c19NtErrorBody, c19CodeRender —
 //	FORMAT: literal text with exactly one integer verb (%x %X %0Nx %0NX %d, first argument) followed by
 //	exactly one of %s %v %w (second argument).
 package main
@@ -153,50 +155,8 @@ func c19NtLoad(repo string) (*c19nt, error) {
 	if ed.Type.Params.NumFields() != 0 || ed.Type.Results.NumFields() != 1 || p.src(ed.Type.Results.List[0].Type) != "error" {
 		return nil, p.errf(ed, "Error: expected signature () error")
 	}
-	b := ed.Body.List
-	if len(b) != 3 {
-		return nil, p.errf(ed, "Error: expected 3 statements, found %d", len(b))
-	}
-	if0, ok := b[0].(*ast.IfStmt)
-	if !ok || if0.Init != nil || if0.Else != nil || len(if0.Body.List) != 1 || p.src(if0.Body.List[0]) != "return nil" {
-		return nil, p.errf(b[0], "Error: first statement is not `if s == SUCCESS { return nil }`")
-	}
-	cmp, ok := if0.Cond.(*ast.BinaryExpr)
-	if !ok || cmp.Op != token.EQL || p.src(cmp.X) != recv {
-		return nil, p.errf(b[0], "Error: `%s` is not `%s == CONST`", p.src(if0.Cond), recv)
-	}
-	sv, err := p.constExpr(cmp.Y)
-	if err != nil {
+	if err := c19NtErrorBody(nt, ed, recv); err != nil {
 		return nil, err
-	}
-	nt.success = C19Const{Ident: p.src(cmp.Y), Value: sv, Pos: p.pos(cmp.Y), Type: "NT_STATUS"}
-	if1, ok := b[1].(*ast.IfStmt)
-	index := "NTStatusToGoErrorMap[" + recv + "]"
-	if !ok || if1.Init == nil || if1.Else != nil || len(if1.Body.List) != 1 {
-		return nil, p.errf(b[1], "Error: second statement is not a comma-ok lookup in NTStatusToGoErrorMap")
-	}
-	as, ok := if1.Init.(*ast.AssignStmt)
-	if !ok || as.Tok != token.DEFINE || len(as.Lhs) != 2 || p.src(as.Rhs[0]) != index || p.src(if1.Cond) != p.src(as.Lhs[1]) {
-		return nil, p.errf(b[1], "Error: `%s` is not `v, ok := %s; ok`", p.src(if1.Init), index)
-	}
-	v := p.src(as.Lhs[0])
-	rs, ok := if1.Body.List[0].(*ast.ReturnStmt)
-	if !ok || len(rs.Results) != 1 {
-		return nil, p.errf(b[1], "Error: found branch is not a return")
-	}
-	call, ok := rs.Results[0].(*ast.CallExpr)
-	if !ok || p.src(call.Fun) != "fmt.Errorf" || len(call.Args) != 3 || p.src(call.Args[1]) != "uint32("+recv+")" || p.src(call.Args[2]) != v {
-		return nil, p.errf(b[1], "Error: `%s` is not fmt.Errorf(FORMAT, uint32(%s), %s)", p.src(rs.Results[0]), recv, v)
-	}
-	format, err := p.stringLit(call.Args[0])
-	if err != nil {
-		return nil, err
-	}
-	if nt.format, err = c19ParseFormat(format); err != nil {
-		return nil, p.errf(call, "Error: %v", err)
-	}
-	if p.src(b[2]) != "return nil" {
-		return nil, p.errf(b[2], "Error: last statement is not `return nil`")
 	}
 	p.claimed[ed] = "Error"
 	if err := p.leftovers([]string{c19NtFile}, nil, true); err != nil {
@@ -205,8 +165,330 @@ func c19NtLoad(repo string) (*c19nt, error) {
 	return nt, nil
 }
 
-// c19ParseFormat: literal text, one integer verb for the code, then one of %s %v %w for the text
-func c19ParseFormat(format string) ([]C19Seg, error) {
+// ---- NT_STATUS.Error(): normalisations (DESIGN.md §7) ------------------------------------------------------
+//
+// Normalisation "truth table of the guards".  Canonical form of Error():
+//
+//	s == SUCCESS            -> nil
+//	s in MAP (text v)       -> fmt.Errorf(FORMAT, code, v)
+//	otherwise               -> nil
+//
+// The body may arrange this in any way built from: the comma-ok lookup `v, ok := MAP[s]` (as a statement
+// or as the init of an `if`), `if` / `else` / `else if` whose conditions are Boolean combinations (`!`,
+// `&&`, `||`, parentheses) of the two atoms `s == CONST` / `s != CONST` and `ok`, `return nil`, and one kind
+// of `return fmt.Errorf(…)`.  The body is run symbolically on the four valuations of (s == CONST, ok); it is
+// accepted iff (true, _) and (false, false) reach `return nil` and (false, true) reaches the Errorf after the
+// lookup — i.e. iff it computes the canonical function.  Both atoms are pure (a comparison, a map read), so
+// evaluating them in another order or more often changes nothing.  Any other statement or atom is refused.
+type ntEnv struct {
+	recv, val, ok string
+	success       ast.Expr
+}
+
+type ntLeaf struct {
+	call *ast.CallExpr // nil: `return nil`
+	val  string        // the looked-up value variable in scope at the Errorf
+}
+
+func (nt *c19nt) cond(e ast.Expr, env *ntEnv, isSuccess, known bool) (bool, error) {
+	p := nt.p
+	switch x := unparen(e).(type) {
+	case *ast.Ident:
+		if env.ok != "" && x.Name == env.ok {
+			return known, nil
+		}
+	case *ast.UnaryExpr:
+		if x.Op == token.NOT {
+			v, err := nt.cond(x.X, env, isSuccess, known)
+			return !v, err
+		}
+	case *ast.BinaryExpr:
+		switch x.Op {
+		case token.LAND, token.LOR:
+			l, err := nt.cond(x.X, env, isSuccess, known)
+			if err != nil {
+				return false, err
+			}
+			r, err := nt.cond(x.Y, env, isSuccess, known)
+			if err != nil {
+				return false, err
+			}
+			if x.Op == token.LAND {
+				return l && r, nil
+			}
+			return l || r, nil
+		case token.EQL, token.NEQ:
+			c := x.Y
+			if p.src(unparen(x.X)) != env.recv {
+				if p.src(unparen(x.Y)) != env.recv {
+					break
+				}
+				c = x.X
+			}
+			if _, err := p.constExpr(c); err != nil {
+				return false, err
+			}
+			if env.success == nil {
+				env.success = c
+			} else if p.src(env.success) != p.src(c) {
+				return false, p.errf(e, "Error: the status is compared with two different constants (%s, %s)", p.src(env.success), p.src(c))
+			}
+			return isSuccess == (x.Op == token.EQL), nil
+		}
+	}
+	return false, p.errf(e, "Error: condition `%s` is not built from `%s == CONST` and the ok of the map lookup", p.src(e), env.recv)
+}
+
+func (nt *c19nt) lookupStmt(st ast.Stmt, env *ntEnv) bool {
+	as, ok := st.(*ast.AssignStmt)
+	if !ok || as.Tok != token.DEFINE || len(as.Lhs) != 2 || len(as.Rhs) != 1 || nt.p.src(as.Rhs[0]) != "NTStatusToGoErrorMap["+env.recv+"]" || env.ok != "" {
+		return false
+	}
+	env.val, env.ok = nt.p.src(as.Lhs[0]), nt.p.src(as.Lhs[1])
+	return env.ok != "_" && env.val != "_"
+}
+
+// run: the leaf the statements reach under the valuation, or nil if they fall through
+func (nt *c19nt) run(stmts []ast.Stmt, env *ntEnv, isSuccess, known bool) (*ntLeaf, error) {
+	p := nt.p
+	for _, st := range stmts {
+		switch x := st.(type) {
+		case *ast.AssignStmt:
+			if !nt.lookupStmt(x, env) {
+				return nil, p.errf(st, "Error: `%s` is not the lookup `v, ok := NTStatusToGoErrorMap[%s]`", p.src(st), env.recv)
+			}
+		case *ast.ReturnStmt:
+			if len(x.Results) != 1 {
+				return nil, p.errf(st, "Error: return of %d values", len(x.Results))
+			}
+			if p.src(x.Results[0]) == "nil" {
+				return &ntLeaf{}, nil
+			}
+			call, ok := x.Results[0].(*ast.CallExpr)
+			if !ok || p.src(call.Fun) != "fmt.Errorf" {
+				return nil, p.errf(st, "Error: `%s` is neither `return nil` nor `return fmt.Errorf(…)`", p.src(st))
+			}
+			return &ntLeaf{call: call, val: env.val}, nil
+		case *ast.IfStmt:
+			inner := *env
+			if x.Init != nil && !nt.lookupStmt(x.Init, &inner) {
+				return nil, p.errf(st, "Error: `%s` is not the lookup `v, ok := NTStatusToGoErrorMap[%s]`", p.src(x.Init), env.recv)
+			}
+			c, err := nt.cond(x.Cond, &inner, isSuccess, known)
+			if err != nil {
+				return nil, err
+			}
+			env.success = inner.success
+			var leaf *ntLeaf
+			if c {
+				leaf, err = nt.run(x.Body.List, &inner, isSuccess, known)
+			} else if x.Else != nil {
+				switch e := x.Else.(type) {
+				case *ast.BlockStmt:
+					leaf, err = nt.run(e.List, &inner, isSuccess, known)
+				default:
+					leaf, err = nt.run([]ast.Stmt{e}, &inner, isSuccess, known)
+				}
+			}
+			env.success = inner.success
+			if err != nil || leaf != nil {
+				return leaf, err
+			}
+		default:
+			return nil, p.errf(st, "Error: statement `%s` is not understood", firstLine(p.src(st)))
+		}
+	}
+	return nil, nil
+}
+
+func c19NtErrorBody(nt *c19nt, ed *ast.FuncDecl, recv string) error {
+	p := nt.p
+	var errorf *ntLeaf
+	var success ast.Expr
+	for _, v := range [][2]bool{{true, true}, {true, false}, {false, false}, {false, true}} {
+		env := &ntEnv{recv: recv, success: success}
+		leaf, err := nt.run(ed.Body.List, env, v[0], v[1])
+		if err != nil {
+			return err
+		}
+		success = env.success
+		if leaf == nil {
+			return p.errf(ed, "Error: the body can end without a return")
+		}
+		wantErrorf := !v[0] && v[1]
+		if wantErrorf != (leaf.call != nil) {
+			return p.errf(ed, "Error: for (status is the success constant: %v, status in NTStatusToGoErrorMap: %v) the body returns %s; expected nil for the success constant and for a status outside the map, the formatted error otherwise",
+				v[0], v[1], map[bool]string{true: "the formatted error", false: "nil"}[leaf.call != nil])
+		}
+		if leaf.call != nil {
+			errorf = leaf
+		}
+	}
+	if success == nil {
+		return p.errf(ed, "Error: no comparison of the status with a constant")
+	}
+	sv, err := p.constExpr(success)
+	if err != nil {
+		return err
+	}
+	nt.success = C19Const{Ident: p.src(success), Value: sv, Pos: p.pos(success), Type: "NT_STATUS"}
+	call := errorf.call
+	if errorf.val == "" || len(call.Args) != 3 || p.src(call.Args[2]) != errorf.val {
+		return p.errf(call, "Error: `%s` is not fmt.Errorf(FORMAT, <code>, <looked-up error>)", p.src(call))
+	}
+	format, err := p.stringLit(call.Args[0])
+	if err != nil {
+		return err
+	}
+	code := "uint32(" + recv + ")"
+	var rendered *C19Seg
+	if p.src(call.Args[1]) != code {
+		seg, err := p.codeRender(call.Args[1], code, 32, nil, 0)
+		if err != nil {
+			return fmt.Errorf("%w\n  (the first argument of fmt.Errorf is neither %s nor an expression that renders it as %%x / %%0Nx / %%X / %%d)", err, code)
+		}
+		rendered = seg
+	}
+	if nt.format, err = c19ParseFormat(format, rendered); err != nil {
+		return p.errf(call, "Error: %v", err)
+	}
+	return nil
+}
+
+// Normalisation "rendered code".  Canonical form: the integer verb of the format (`%x`, `%0Nx`, `%X`, `%d`)
+// applied to uint32(s).  Accepted instead: a `%s` / `%v` verb whose argument is a STRING that is provably
+// that rendering, built from
+//
+//	fmt.Sprintf("%x" | "%0Nx" | "%X" | "%0NX" | "%d", X)         the same verb, applied earlier
+//	strconv.FormatUint(uint64(X), 16 | 10)                        = %x / %d for an unsigned X
+//	strings.ToUpper(E)                                            %x -> %X
+//	PAD[len(D):] + D       PAD a literal of N zeros, D := E an unpadded hex rendering: = %0Nx, accepted only
+//	                        when the widest value of X's type has at most N digits (otherwise Go panics
+//	                        where the verb does not)
+//	helper(X)              a function of this package with one integer parameter whose body is
+//	                        `[D := E;] return E'` over its parameter
+//
+// where X is the code (`uint32(s)`, or the helper's parameter).  Everything else is refused.
+func (p *c19pkg) codeRender(e ast.Expr, subject string, bits int, bound map[string]*C19Seg, depth int) (*C19Seg, error) {
+	e = unparen(e)
+	if id, ok := e.(*ast.Ident); ok && bound[id.Name] != nil {
+		s := *bound[id.Name]
+		return &s, nil
+	}
+	refuse := func() (*C19Seg, error) {
+		return nil, p.errf(e, "`%s` is not a known rendering of `%s`", p.src(e), subject)
+	}
+	if be, ok := e.(*ast.BinaryExpr); ok && be.Op == token.ADD {
+		// PAD[len(D):] + D
+		sl, ok := unparen(be.X).(*ast.SliceExpr)
+		d, ok2 := unparen(be.Y).(*ast.Ident)
+		if !ok || !ok2 || sl.High != nil || sl.Slice3 || sl.Low == nil || p.src(sl.Low) != "len("+d.Name+")" || bound[d.Name] == nil {
+			return refuse()
+		}
+		pad, err := p.stringLit(sl.X)
+		if err != nil || pad == "" || strings.Trim(pad, "0") != "" {
+			return refuse()
+		}
+		inner := bound[d.Name]
+		if inner.Kind != "hex" || inner.Width != 0 {
+			return refuse()
+		}
+		if maxDigits := (bits + 3) / 4; maxDigits > len(pad) {
+			return nil, p.errf(e, "`%s`: a %d-bit value has up to %d hex digits, the pad has %d: the slice can panic", p.src(e), bits, maxDigits, len(pad))
+		}
+		return &C19Seg{Kind: "hex", Width: len(pad), Upper: inner.Upper}, nil
+	}
+	call, ok := e.(*ast.CallExpr)
+	if !ok {
+		return refuse()
+	}
+	isSubject := func(x ast.Expr) bool {
+		s := p.src(unparen(x))
+		return s == subject || s == "uint64("+subject+")"
+	}
+	switch fn := p.src(call.Fun); {
+	case fn == "fmt.Sprintf" && len(call.Args) == 2 && p.src(unparen(call.Args[1])) == subject:
+		format, err := p.stringLit(call.Args[0])
+		if err != nil {
+			return refuse()
+		}
+		segs, err := c19ParseFormat(format+"%s", nil)
+		if err != nil || len(segs) != 2 {
+			return refuse()
+		}
+		return &segs[0], nil
+	case fn == "strconv.FormatUint" && len(call.Args) == 2 && p.src(unparen(call.Args[0])) == "uint64("+subject+")":
+		switch p.src(call.Args[1]) {
+		case "16":
+			return &C19Seg{Kind: "hex"}, nil
+		case "10":
+			return &C19Seg{Kind: "dec"}, nil
+		}
+		return refuse()
+	case fn == "strings.ToUpper" && len(call.Args) == 1:
+		s, err := p.codeRender(call.Args[0], subject, bits, bound, depth)
+		if err != nil || s.Kind != "hex" {
+			return refuse()
+		}
+		s.Upper = true
+		return s, nil
+	case len(call.Args) == 1 && isSubject(call.Args[0]) && depth == 0:
+		// helper of this package
+		id, ok := call.Fun.(*ast.Ident)
+		if !ok {
+			return refuse()
+		}
+		for _, f := range p.files {
+			for _, d := range f.Decls {
+				fd, ok := d.(*ast.FuncDecl)
+				if !ok || fd.Recv != nil || fd.Name.Name != id.Name {
+					continue
+				}
+				if fd.Type.Params.NumFields() != 1 || len(fd.Type.Params.List[0].Names) != 1 || fd.Type.Results.NumFields() != 1 || p.src(fd.Type.Results.List[0].Type) != "string" {
+					return refuse()
+				}
+				pbits := map[string]int{"uint8": 8, "byte": 8, "uint16": 16, "uint32": 32, "uint64": 64}[p.src(fd.Type.Params.List[0].Type)]
+				if pbits == 0 || pbits < bits && p.src(unparen(call.Args[0])) != subject {
+					return refuse()
+				}
+				if p.src(unparen(call.Args[0])) == "uint64("+subject+")" && pbits != 64 {
+					return refuse()
+				}
+				param := fd.Type.Params.List[0].Names[0].Name
+				local := map[string]*C19Seg{}
+				body := fd.Body.List
+				for len(body) > 1 {
+					as, ok := body[0].(*ast.AssignStmt)
+					if !ok || as.Tok != token.DEFINE || len(as.Lhs) != 1 || len(as.Rhs) != 1 {
+						return nil, p.errf(body[0], "helper %s: `%s` is not `d := <rendering>`", id.Name, firstLine(p.src(body[0])))
+					}
+					seg, err := p.codeRender(as.Rhs[0], param, pbits, local, depth+1)
+					if err != nil {
+						return nil, err
+					}
+					local[p.src(as.Lhs[0])] = seg
+					body = body[1:]
+				}
+				rs, ok := body[0].(*ast.ReturnStmt)
+				if !ok || len(rs.Results) != 1 {
+					return nil, p.errf(body[0], "helper %s: last statement is not a return", id.Name)
+				}
+				seg, err := p.codeRender(rs.Results[0], param, pbits, local, depth+1)
+				if err != nil {
+					return nil, err
+				}
+				p.claimed[fd] = "code rendering helper"
+				return seg, nil
+			}
+		}
+	}
+	return refuse()
+}
+
+// c19ParseFormat: literal text, one integer verb for the code, then one of %s %v %w for the text.  With
+// `rendered` (the code is passed as an already rendered string, see codeRender) the first verb must be %s or
+// %v and stands for that rendering.
+func c19ParseFormat(format string, rendered *C19Seg) ([]C19Seg, error) {
 	var segs []C19Seg
 	lit := ""
 	flush := func() {
@@ -246,18 +528,23 @@ func c19ParseFormat(format string) ([]C19Seg, error) {
 		flush()
 		switch format[j] {
 		case 'x', 'X':
-			if nCode != 0 || nText != 0 {
+			if nCode != 0 || nText != 0 || rendered != nil {
 				return nil, fmt.Errorf("format %q: the code verb must come first and once", format)
 			}
 			segs = append(segs, C19Seg{Kind: "hex", Width: width, Upper: format[j] == 'X'})
 			nCode++
 		case 'd':
-			if nCode != 0 || nText != 0 || width != 0 {
+			if nCode != 0 || nText != 0 || width != 0 || rendered != nil {
 				return nil, fmt.Errorf("format %q: the code verb must come first and once", format)
 			}
 			segs = append(segs, C19Seg{Kind: "dec"})
 			nCode++
 		case 's', 'v', 'w':
+			if rendered != nil && nCode == 0 && nText == 0 && width == 0 && format[j] != 'w' {
+				segs = append(segs, *rendered)
+				nCode++
+				break
+			}
 			if nCode != 1 || nText != 0 || width != 0 {
 				return nil, fmt.Errorf("format %q: the text verb must follow the code verb, once", format)
 			}
